@@ -2,6 +2,7 @@
 mod cer;
 mod cerclient;
 mod cerrun;
+mod conc;
 mod hid;
 mod psl;
 mod rp;
@@ -18,6 +19,7 @@ fn main() {
     let args = util::Args::parse(&raw[1..]);
     match raw[0].as_str() {
         "cer" => cerrun::main(&args),
+        "conc" => conc::main(&args),
         "hid" => hid::main(&args),
         "psl" => psl::main(&args),
         "rpid" => rpid::main(&args),
